@@ -520,6 +520,6 @@ def replay(wit):
 
 
 TECHNIQUE = 'runtime model-based oracle over operation histories: declarative dispatch model + state hook comparing the live registries after every operation, exhaustive short histories in forked children'
-LEVEL_TEXT = ('Every history up to length 3 (thorough 4, sampled 1:3 at length 4) over 36-48 operations and random histories up to length 12 are executed against the real registries on a fresh class lattice; '
+LEVEL_TEXT = ('Every history up to length 3 (thorough 4, sampled 1:3 at length 4) over 36-48 operations, random histories up to length 12 on a fresh 7-class lattice, on random class hierarchies (3-18 classes, chains up to 18 deep, multiple inheritance), with printers registered for object itself, and all histories up to length 4 over {install_extras, competing user predicate, print} are executed against the real registries; '
               'which printer ran, every is_registered answer and the registry state after every step are compared with a declarative model of the statement.')
 LEVEL_NOTE = 'The model mirrors when promotion happens (it is observable through check_deferred=False); ambiguity between direct and pending-deferred registrations on one class is accepted either way.'
